@@ -678,7 +678,10 @@ func (e *emitter) expr(n *Node) {
 			if i > 0 {
 				e.tt(",")
 			}
+			// (not in docs/parser.md's placeholder list: only the call statement is; C15 leaves these out)
+			e.slot("before-argument", "inline")
 			e.expr(a)
+			e.slot("after-argument", "inline")
 		}
 		e.tt(")")
 	default:
